@@ -317,14 +317,10 @@ theorem inv_sMsgProcessResult {s s' : St} {b : Bool} {o : Out} (h : Inv s)
       all_goals (try split)
       all_goals (try simp_all)
       all_goals (try omega)
-      all_goals trace_state
-      all_goals sorry
     | dgram q sent =>
       have hsh : s.shmT = false := by have := h.kReq; rw [hreq] at this; simpa [Chan.isShm] using this.symm
       inv_split h
       constructor <;> simp_all [inflight, recvdPending]
-      all_goals trace_state
-      all_goals sorry
   · simp at hs
 
 end QbVerif.IpcLemmas
